@@ -306,18 +306,28 @@ def classify_exact_recursion(case):
     return fails, {}
 
 
-def cases():
+FAMILIES = ["mean_field", "full_cov", "two_site", "shared_mean", "per_site", "mean_field", "shared_mean", "full_cov"]
+
+
+def cases(family=None, estimator=None, only=None):
+    """family / estimator: fixed by the caller (the shards cycle through them - Hypothesis does not draw uniformly from
+    sampled_from in a handful of examples); only: 'conjugate' | 'recursion' | None (mixed)."""
     from hypothesis import strategies as st
 
     f = lambda lo, hi: st.floats(lo, hi, allow_nan=False).map(lambda x: round(x, 2))  # noqa: E731
     mat = st.lists(st.lists(f(-0.8, 0.8), min_size=3, max_size=3), min_size=3, max_size=3)
-    conj = st.fixed_dictionaries({"kind": st.just("conjugate"), "d": st.integers(1, 3), "m0": st.lists(f(-1, 1), min_size=3, max_size=3), "B0": mat, "lam0": st.sampled_from([0.5, 1.0]),
+    conj = st.fixed_dictionaries({"kind": st.just("conjugate"), "d": st.sampled_from([2, 3, 2]) if family in ("shared_mean", "per_site", "full_cov") else st.integers(1, 3), "m0": st.lists(f(-1, 1), min_size=3, max_size=3), "B0": mat, "lam0": st.sampled_from([0.5, 1.0]),
                                   "BR": mat, "lamR": st.sampled_from([0.3, 0.8]), "y": st.lists(f(-1.5, 1.5), min_size=3, max_size=3),
-                                  "family": st.sampled_from(["mean_field", "mean_field", "full_cov", "two_site", "shared_mean", "per_site"]), "estimator": st.sampled_from(["reparam", "reinforce"]),
+                                  "family": st.just(family) if family else st.sampled_from(["mean_field", "mean_field", "full_cov", "two_site", "shared_mean", "per_site"]),
+                                  "estimator": st.just(estimator) if estimator else st.sampled_from(["reparam", "reinforce"]),
                                   "pair": st.sampled_from(["reinforce+reinforce", "reparam+reinforce", "reinforce+reparam"]),
                                   "params": st.lists(f(-0.6, 0.6), min_size=12, max_size=12), "lr": st.sampled_from([0.01, 0.05]), "n_iter": st.integers(2, 6), "key": st.integers(0, 2**30)})
     rec = st.fixed_dictionaries({"kind": st.just("recursion"), "objective": st.sampled_from(["quadratic", "enum"]), "a": st.lists(f(-1, 1), min_size=2, max_size=2),
                                  "theta0": st.lists(f(-1, 1), min_size=2, max_size=2), "lr": st.sampled_from([0.01, 0.1, 0.3]), "scale": st.sampled_from([1.0, 1.0, 1e4, 1e-3]), "n_iter": st.integers(1, 20), "key": st.integers(0, 2**30)})
+    if only == "conjugate":
+        return conj
+    if only == "recursion":
+        return rec
     return st.one_of(conj, conj, rec)
 
 
@@ -341,7 +351,12 @@ def one_case(ctx, case):
 
 def run_shard(ctx):
     P = plan(ctx)
-    drive(ctx, cases(), P["n_cases"], lambda c: one_case(ctx, c), "main")
+    n = P["n_cases"]
+    fam = FAMILIES[ctx.shard % len(FAMILIES)]
+    est = ["reparam", "reinforce"][(ctx.shard // len(FAMILIES) + ctx.seed) % 2]
+    drive(ctx, cases(fam, est, "conjugate"), max(1, n // 2), lambda c: one_case(ctx, c), "conj_forced")
+    drive(ctx, cases(only="conjugate"), max(1, n // 4), lambda c: one_case(ctx, c), "conj")
+    drive(ctx, cases(only="recursion"), max(1, n - n // 2 - n // 4), lambda c: one_case(ctx, c), "rec")
 
 
 def replay(case):
